@@ -826,7 +826,7 @@ var keyNames = []keyName{
 	{KeyCapsLock, "Caps_Lock"},
 	{KeyScrollLock, "Scroll_Lock"},
 	{KeyNumlock, "Num_Lock"},
-	{KeyPrintScreen, "Print"},
+	{KeyPrintScreen, "Print_Screen"},
 	{KeyPause, "Pause"},
 	{KeyMenu, "Menu"},
 	{KeyMediaPlay, "Media_Play"},
